@@ -18,7 +18,11 @@ use std::sync::atomic::{AtomicU64, Ordering};
 use std::sync::{Arc, Mutex};
 use std::time::{Duration, Instant};
 
-pub const VERIF_DIR: &str = "/verif";
+/// Root of the harness (known findings, replays, evidence). `check` exports its own directory as
+/// VERIF_DIR so that a snapshot or scratch copy of the harness stays self-contained.
+pub fn verif_dir() -> PathBuf {
+    std::env::var_os("VERIF_DIR").map(PathBuf::from).unwrap_or_else(|| PathBuf::from("/verif"))
+}
 
 #[derive(Clone, Copy, Debug, PartialEq, Eq)]
 pub enum Tier {
@@ -600,7 +604,7 @@ fn exit_class(status: &std::process::ExitStatus, stdout: &str) -> String {
 fn scratch_dir() -> PathBuf {
     let base = std::env::var("VERIF_SCRATCH")
         .map(PathBuf::from)
-        .unwrap_or_else(|_| PathBuf::from(VERIF_DIR).join("sim/target/scratch"));
+        .unwrap_or_else(|_| verif_dir().join("sim/target/scratch"));
     let d = base.join(format!("{}-{}", std::process::id(), std::env::args().next().map(|s| {
         Path::new(&s).file_name().map(|f| f.to_string_lossy().into_owned()).unwrap_or_default()
     }).unwrap_or_default()));
@@ -948,7 +952,7 @@ struct Known {
 }
 
 fn load_known(property: &str) -> Vec<Known> {
-    let path = Path::new(VERIF_DIR).join("known-findings.json");
+    let path = verif_dir().join("known-findings.json");
     let text = match std::fs::read_to_string(&path) {
         Ok(t) => t,
         Err(_) => return Vec::new(),
@@ -1143,7 +1147,7 @@ pub fn main_with<E: Engine + 'static>(engine: &'static E) -> ! {
             .chars()
             .map(|c| if c.is_ascii_alphanumeric() { c } else { '_' })
             .collect();
-        let path = Path::new(VERIF_DIR).join("replays").join(format!(
+        let path = verif_dir().join("replays").join(format!(
             "{}-{}-{}-seed{}-run{}.json",
             prop, safe_class, safe_key, a.seed, v.run
         ));
@@ -1159,7 +1163,7 @@ pub fn main_with<E: Engine + 'static>(engine: &'static E) -> ! {
             "violation": {"class": class, "key": key, "message": v.message, "occurrences_in_batch": n},
             "minimisation": {"accepted_steps": steps, "original_plan_bytes": v.plan.to_string().len(), "minimised_plan_bytes": plan.to_string().len()},
             "replay_confirmed_in_fresh_process": confirmed,
-            "replay_cmd": format!("{}/check {} --replay {}", VERIF_DIR, prop, path.display()),
+            "replay_cmd": format!("{}/check {} --replay {}", verif_dir().display(), prop, path.display()),
         });
         std::fs::write(&path, serde_json::to_string_pretty(&file).unwrap())
             .unwrap_or_else(|e| harness_error(&format!("write replay: {}", e)));
@@ -1216,7 +1220,7 @@ pub fn main_with<E: Engine + 'static>(engine: &'static E) -> ! {
             "violations": unlisted,
             "known_findings_hit": used_known.len(),
         });
-        let path = Path::new(VERIF_DIR)
+        let path = verif_dir()
             .join("evidence")
             .join(format!("{}.json", engine.evidence_name().unwrap_or_else(|| prop.clone())));
         let _ = std::fs::create_dir_all(path.parent().unwrap());
